@@ -1,5 +1,6 @@
 """C01 - reliable ordered stream: the reader sees a prefix of what was written (raw endpoints)."""
 import kcp_common as K
+import udp_common as U
 import sess_common as S
 
 META = {
@@ -17,6 +18,7 @@ def run(ctx):
     K.core_check(ctx, "C01", "C01.v", OBLIGATIONS, RELEVANT,
                  "kcp.go vs coq/kcp/Kcp.v on lossy/duplicating/reordering two-endpoint histories")
     S.session_part(ctx, "C01")
+    U.run_parts(ctx, ["relay"])
     ctx.coverage["rule"] = ("all 4^K fate vectors (deliver/drop/duplicate/hold-behind-next) for the first K datagrams of a 4-message transfer in both modes, then a healed network; "
                             "random histories with 15-40 % loss, duplication, reordering, FEC-style non-regular re-delivery; prefix oracle after every Recv; "
                             "non-trivial = a retransmission plus a duplicate or out-of-order delivery occurred and data was read")
